@@ -8,40 +8,6 @@ Each witness is replayed on the real code by the harness (corpus/C01/*.json) and
 namespace CV.C01.Neg
 open CV.C01
 
-/-! ## include: a cycle that only shows in an *override* position of the long syntax is not detected
-
-`include: [{path: [b.yml, compose.yml]}]` in `compose.yml`: `ApplyInclude` tests only `path[0]` against the
-files already being loaded, so `compose.yml` is loaded again as an override of `b.yml`, includes again, …
-The real loader does not return (observed: > 10 s, memory growing; key `hang@cycle/include-override-position`). -/
-
-def incWitness : Inc.FS := [("A", [["B", "A"]]), ("B", [])]
-
-theorem incWitness_loops : ∀ (fuel : Nat) (inc : List String), (∀ x ∈ inc, x = "A") →
-    Inc.loadModel incWitness fuel ["B", "A"] inc = .outOfFuel
-  | 0, _, _ => rfl
-  | fuel + 1, inc, h => by
-    have hB : "B" ∉ inc ++ ["A"] := by
-      intro hm
-      rcases List.mem_append.mp hm with h' | h'
-      · exact absurd (h _ h') (by decide)
-      · simp only [List.mem_singleton] at h'
-        exact absurd h' (by decide)
-    have ih := incWitness_loops fuel (inc ++ ["A"]) (by
-      intro x hx
-      rcases List.mem_append.mp hx with h' | h'
-      · exact h x h'
-      · simpa using h')
-    have hne : ¬ ("B" = "A") := by decide
-    simp only [incWitness] at ih
-    simp only [Inc.loadModel, Inc.loadFiles, incWitness, Inc.lookup, Inc.applyInclude, hB, hne, ↓reduceIte, ih]
-
-/-- full-strength termination of the include loop is FALSE: no amount of fuel suffices on the witness -/
-theorem include_terminates_false :
-    ¬ (∀ (fs : Inc.FS) (files : List String), ∃ n, ∀ fuel, n ≤ fuel → Inc.loadModel fs fuel files [] ≠ .outOfFuel) := by
-  intro h
-  obtain ⟨n, hn⟩ := h incWitness ["B", "A"]
-  exact hn n (Nat.le_refl n) (incWitness_loops n [] (by intro x hx; cases hx))
-
 /-! ## extends: the base file is resolved with an unchecked `value.(string)` on `extends.file`
 
 `a` extends `b` in `o.yml`; some service of `o.yml` has `extends: {service: x, file: 3}`.  After `o.yml` is
